@@ -1,4 +1,11 @@
 // refshim.hpp -- C++ side of the Fortran reference binding (DESIGN.md section 3)
+//
+// The reference is built twice as a shared object (each loaded with dlopen/RTLD_LOCAL, linked -Bsymbolic,
+// so the two copies do not share common blocks):
+//   strict     : the Fortran text as shipped
+//   harmonised : same text with the 7-digit constants pi / 2pi / 0.511-in-fermi at the port's precision
+// The strict flavour is the oracle; the harmonised one only serves to explain (and excuse) a mismatch that is
+// entirely due to those constants.
 #ifndef REFSHIM_HPP
 #define REFSHIM_HPP
 #include <string>
@@ -12,17 +19,41 @@
 namespace ref {
 // deviate source of the reference (set before each call)
 extern vf::TapeRandom * g_rnd;
+// number of times the reference's fermi(Z,E) overwrote its by-reference argument with 50 eV (observation hook)
+extern int g_sub50;
 
 struct Particle { int code; double p[3]; double t; /* absolute (running sum) */ double dt; };
 struct Event { int np = 0; double tevst = 0; std::vector<Particle> parts; };
-
-void set_params(double ebb1, double ebb2);
-void set_nme(const double nme[7]);
-// returns ier ; istart: -1 init, 1 generate
-int call(int i2bbs, const std::string & name, int ilevel, int modebb, int istart);
-Event get_event();
-void clear_event();
 struct Range { double ebb1, ebb2, toall; int levelE; std::string chdspin; };
-Range get_range();
+
+struct Lib
+{
+  void * h = nullptr;
+  void (*f_setpar)(double *, double *, int *) = nullptr;
+  void (*f_setnme)(double *, double *, double *, double *, double *, double *, double *) = nullptr;
+  void (*f_getev)(int *, int *, double *, double *, double *) = nullptr;
+  void (*f_clrev)() = nullptr;
+  void (*f_getrange)(double *, double *, double *, int *, int *) = nullptr;
+  void (*f_call)(int *, int *, int *, int *, int *, int *, int *) = nullptr;
+  struct Seg { char * addr; size_t len; std::vector<char> copy[2]; };
+  std::vector<Seg> segs;
+
+  void open(const std::string & path);
+  void set_params(double ebb1, double ebb2);
+  void set_nme(const double nme[7]);
+  int call(int i2bbs, const std::string & name, int ilevel, int modebb, int istart); // returns ier
+  Event get_event();
+  void clear_event();
+  Range get_range();
+  // The reference is compiled with -fno-automatic: every local lives in static storage and a few routines read
+  // locals they never assign on some paths (e.g. thlev in the IT branch of Pa234m; itrans02 for Dy156 levels
+  // 12/13), so its output would depend on earlier calls.  Restoring a saved image of its writable segments makes
+  // it a pure function of (configuration, tape).  slot 0: pristine image, slot 1: after init of the current config.
+  void snapshot(int slot);
+  void restore(int slot);
+};
+
+Lib & strict();     // libdecay0ref.so
+Lib & harmonised(); // libdecay0refh.so
 } // namespace ref
 #endif
